@@ -82,7 +82,7 @@ def tamper_file(filepath, mode='e', proba=0.03, block_proba=None, blocksize=6553
     tamper_count = 0 # total number of characters tampered in the file
     total_size = 0 # total buffer size, NOT necessarily the total file size (depends if you set header or not)
     with open(filepath, "r+b") as fh: # 'r+' allows to read AND overwrite characters. Else any other option won't allow both ('a+' read and append, 'w+' erases the file first then allow to read and write), and 'b' is just for binary because we can open any filetype.
-        if proba >= 1: proba = 1.0/os.fstat(fh.fileno()).st_size * proba # normalizing probability if it's an integer (ie: the number of characters to flip on average)
+        if proba >= 1: proba = 1.0/max(1, os.fstat(fh.fileno()).st_size) * proba # normalizing probability if it's an integer (ie: the number of characters to flip on average)
         buf = fh.read(blocksize) # We process blocks by blocks because it's a lot faster (IO is still the slowest operation in any computing system)
         while len(buf) > 0:
             total_size += len(buf)
